@@ -9,6 +9,10 @@ def main():
     for profile in ("dev", "release"):
         _, dt = cargo_build("vecsim", profile)
         log("setup: vecsim %s built in %.1fs" % (profile, dt))
+    import simr
+    for profile in ("dev", "release"):
+        _, dt = simr.build(profile, DEFAULT_SEED, "quick")
+        log("setup: recsim %s built in %.1fs" % (profile, dt))
     # warm the Miri build (sysroot is pre-built in the image)
     env = cargo_env()
     env["CARGO_TARGET_DIR"] = os.path.join(TARGET, "miri")
@@ -17,6 +21,14 @@ def main():
         p = subprocess.run(["cargo", "+nightly", "miri", "run", "--offline", "-q", "-p", "vecsim", "--", "catalogue"], cwd=SIM, env=env,
                            stdout=subprocess.PIPE, stderr=subprocess.STDOUT, text=True)
     log("setup: miri warm-up rc=%d" % p.returncode)
+    if p.returncode != 0:
+        log(p.stdout[-2000:])
+        return EXIT_HARNESS
+    env.update(simr.build_env(DEFAULT_SEED, "quick"))
+    with BuildLock():
+        p = subprocess.run(["cargo", "+nightly", "miri", "run", "--offline", "-q", "-p", "recsim", "--", "batch", "--seed", "0", "--count", "0"], cwd=SIM, env=env,
+                           stdout=subprocess.PIPE, stderr=subprocess.STDOUT, text=True)
+    log("setup: miri warm-up of recsim rc=%d" % p.returncode)
     if p.returncode != 0:
         log(p.stdout[-2000:])
         return EXIT_HARNESS
